@@ -628,10 +628,32 @@ def _seq_plans(P, problem, rng, L, k):
     plans.append([rng.choice(gas) for _ in range(rng.randint(1, L))])
     out, seen_p = [], set()
     for pl in plans:
-        if repr(pl) not in seen_p:
+        if repr(pl) not in seen_p and _small_run(problem, P, keys, gas, acts, pl):
             seen_p.add(repr(pl))
             out.append(pl)
     return out[:k + 1], safe
+
+
+def _small_run(problem, P, keys, gas, acts, pl):
+    """TLC integers are 32 bit: keep only plans whose executable prefix stays within simobs.MAG on the real
+    simulator (a bound on what TLC is asked to expand, not a verdict)"""
+    from unified_planning.engines.sequential_simulator import UPSequentialSimulator
+
+    try:
+        sim = UPSequentialSimulator(problem, error_on_failed_checks=False)
+        st = sim.get_initial_state()
+        if simobs._big(upj.state_vector(st, problem, keys)):
+            return False
+        for g in pl:
+            a, params = acts[gas.index(g)]
+            st = sim.apply(st, a, params)
+            if st is None:
+                return True
+            if simobs._big(upj.state_vector(st, problem, keys)):
+                return False
+    except Exception:
+        return True
+    return True
 
 
 def _tt_plans(P, problem, rng, k):
